@@ -91,7 +91,7 @@ function check (job, resp, prefix) {
 module.exports = {
   id: 'C15',
   level: 'exploration',
-  rule: 'conservation check per result: metrics.instrumentedPropagation must equal the number of `_ddiast.<dst>(` call sites in the emitted code (census on the acorn AST of the raw output); under DEBUG the per-tag map must equal the partition of those sites by the aligned input operation (+, +=, Tpl, method source name); OFF => 0 and no breakdown; other levels => no breakdown; status/file echo the call. Workload: every permutation (length<=2 quick, <=3 thorough, longer sampled) of 16 statements mixing instrumented, literal-only, disabled, excluded, optional-chain and nested operations, x 8 verbosity spellings, plus corpus/catalogue/random programs. distinct_nontrivial = distinct (input, config) whose output has >= 1 hook site.',
+  rule: 'conservation check per result: metrics.instrumentedPropagation must equal the number of `_ddiast.<dst>(` call sites in the emitted code (census on the acorn AST of the raw output); under DEBUG the per-tag map must equal the partition of those sites by the aligned input operation (+, +=, Tpl, method source name); OFF => 0 and no breakdown; other levels => no breakdown; status/file echo the call. Workload: every permutation (length<=2 quick, <=3 thorough, longer sampled) of 16 statements mixing instrumented, literal-only, disabled, excluded, optional-chain and nested operations, x 8 verbosity spellings, plus corpus/catalogue/random programs. distinct_nontrivial = distinct (input, config) whose output has >= 1 hook site. Workload additions: corpus files with enabled operations spliced onto randomly chosen expression nodes (25 wrappers x every expression slot; only texts V8 still compiles), the syntax zoo with LF/CRLF/CR line endings, a CRLF slice of the corpus.',
   assumptions: ['hook call sites are counted syntactically in the emitted code; the prologue contains none', 'tag attribution needs the erased output to align with the input (C02); unaligned files only get the count check'],
   plan (ctx) {
     const perms = planPerms(ctx)
